@@ -62,10 +62,17 @@ def gen_task(rng, tdepth, cfg, pool):
     return term
 
 
-def gen_case(rng, big=False):
+def gen_case(rng, big=False, mlflow=False):
+    """mlflow=False: the five plain types (the case stream of a seed is what it always was); mlflow=True: 2-5 of all ten
+    types, at least one of them declared with mlflow_run=True"""
     ntypes = rng.choice([2, 2, 3, 3, 4, 5])
     import gtasks
-    types = rng.sample([t.__name__ for t in gtasks.TYPES], ntypes)
+    if mlflow:
+        types = rng.sample([t.__name__ for t in gtasks.TYPES], ntypes)
+        if not any(gtasks.BY_NAME[t] in gtasks.MLFLOW_TYPES for t in types):
+            types[rng.randrange(ntypes)] = rng.choice(gtasks.MLFLOW_TYPES).__name__
+    else:
+        types = rng.sample([t.__name__ for t in gtasks.BASE_TYPES], ntypes)
     cfg = dict(types=types, depth=rng.choice([0, 1, 2, 3, 3]), p_task=rng.choice([0.3, 0.45, 0.6]),
                p_ref=rng.choice([0.0, 0.1, 0.2]), p_coll=rng.choice([0.2, 0.35]))
     pool = []
@@ -74,7 +81,7 @@ def gen_case(rng, big=False):
     # 'ref' indices refer to the order in which task terms are COMPLETED (post-order); build_obj uses the same order
     case = dict(direction=rng.choice(DIRECTIONS), tasks=tasks)
     if expanded_size(case) > (400 if big else 120):
-        return gen_case(rng, big)  # shared objects multiply the number of task sub-terms; keep cases small
+        return gen_case(rng, big, mlflow)  # shared objects multiply the number of task sub-terms; keep cases small
     return case
 
 
@@ -146,11 +153,18 @@ def hint_token(t):
     return '%s[%s]' % (origin.__name__, ', '.join(hint_token(a) for a in typing.get_args(t)))
 
 
+def declared_return(t):
+    """the return annotation of run() as the class body declares it (gtasks.DECLARED_RUN: the function object captured before
+    labtech.task saw the class), not whatever `t.run` is after decoration"""
+    import gtasks
+    return typing.get_type_hints(gtasks.DECLARED_RUN[t.__name__]).get('return')
+
+
 def table_line():
     import gtasks
     entries = []
     for i, t in enumerate(gtasks.TYPES):
-        ret = typing.get_type_hints(t.run).get('return')
+        ret = declared_return(t)
         fields = '/'.join(f'{hx(hint_token(f.type))}.{hx(f.name)}' for f in dataclasses.fields(t))
         entries.append(f"{i}:{hx(t.__name__)}:{'-' if ret is None else hx(hint_token(ret))}:{fields}")
     return ';'.join(entries)
@@ -322,9 +336,13 @@ def monitor(case, objs, text, text2):
         if len(b['runs']) != 1:
             v.append(f'class block {b["name"]} has {len(b["runs"])} run() lines')
         else:
-            ret = typing.get_type_hints(t.run).get('return')
-            if (ret is None) != (b['runs'][0] == ''):
-                v.append(f'class block {b["name"]}: run() line {b["runs"][0]!r} does not reflect the return annotation {ret!r}')
+            ret = declared_return(t)
+            want_run = '' if ret is None else ' ' + hint_token(ret)
+            if b['runs'][0] != want_run:
+                v.append(f'class block {b["name"]}: the run line reads "run(){b["runs"][0]}" but run() is declared '
+                         + (f'with the return annotation {hint_token(ret)}' if ret is not None else 'without a return annotation')
+                         + (' (task type declared with mlflow_run=True)' if t._lt.mlflow_run else '')
+                         + ': the class block does not list the run signature')
     got_keys = [(a[0], a[3], a[2]) for a in arrows]
     for key in rels:
         c = got_keys.count(key)
@@ -542,6 +560,7 @@ def evaluate(cases, out, want_samples=3):
         d['with_many'] += 1 if stats['many'] else 0
         d['mixed_single_and_collection'] += 1 if mixed(objs) else 0
         d['shared_objects'] += 1 if has_ref(c) else 0
+        d['with_mlflow_run_type'] = d.get('with_mlflow_run_type', 0) + (1 if any(getattr(b, '_lt').mlflow_run for b in expected_structure(objs)[0]) else 0)
         d['directions'][c['direction']] = d['directions'].get(c['direction'], 0) + 1
         if len(out['samples']) < want_samples and stats['types'] >= 3 and stats['many']:
             out['samples'].append(dict(case=c, line=line, text=text))
@@ -571,6 +590,12 @@ CORPUS = [
                                 {'k': 'GE', 'f': {'u': {'t': [{'d': {'k': {'l': [{'k': 'GA', 'f': {'x': 1, 'a': {'k': 'GD', 'f': {}}}}]}}}]}, 'v': 0}}]),
     dict(direction='BT', tasks=[{'k': 'GE', 'f': {'u': {'t': [{'k': 'GA', 'f': {'x': 1}}]}, 'v': 0}},
                                 {'k': 'GE', 'f': {'u': {'k': 'GA', 'f': {'x': 1}}, 'v': {'ref': 0}}}]),
+    # task types declared with mlflow_run=True (annotated run(): float / dict[str, float] / Optional[list[int]] / list[GM];
+    # un-annotated run()), alone and next to plain types
+    dict(direction='BT', tasks=[{'k': 'GN', 'f': {'items': {'l': [{'k': 'GM', 'f': {'seed': 1, 'dep': {'k': 'GA', 'f': {'x': 1}}}},
+                                                                  {'k': 'GM', 'f': {'seed': 2}}]}}}]),
+    dict(direction='TB', tasks=[{'k': 'GO', 'f': {'a': {'k': 'GP', 'f': {'one': {'k': 'GQ', 'f': {}}, 'two': {'t': [{'k': 'GQ', 'f': {'t': 1}}]}}}}},
+                                {'k': 'GP', 'f': {}}]),
     dict(direction='BT', tasks=[{'k': 'GC', 'f': {'m': {'fd': {'a': {'k': 'GC', 'f': {'m': {'k': 'GB', 'f': {'one': None}}, 'p': 1}}}}, 'p': {'ref': 0}}}]),
 ]
 
@@ -581,7 +606,10 @@ def run(ctx):
     out = dict(evaluations=0, violations_raw=[], disagreements=[], nontrivial=set(), samples=[],
                dist=dict(reachable_types={}, relationships={}, task_objects={}, collection_depth={}, task_depth={},
                          with_many=0, mixed_single_and_collection=0, shared_objects=0, directions={}))
-    rule = ('generated task graphs over 2-5 of the five task types of harness/gtasks.py (scalar, single-task, list/tuple/'
+    rule = ('generated task graphs over 2-5 of the task types of harness/gtasks.py (five plain types; a quarter more graphs also over '
+            'five types declared with mlflow_run=True whose run() is annotated float / dict[str, float] / Optional[list[int]] / '
+            'list[GM] / not at all; the run signature expected in a class block is the one of the run function as written in the '
+            'class body) (scalar, single-task, list/tuple/'
             'dict/frozendict parameters nested to depth 3, shared objects); non-trivial = >= 2 reachable types, at least '
             'one "many" arrow and one single arrow, and some relationship observed more than once; distinct by protocol line')
     if ctx.get('replay'):
@@ -596,10 +624,12 @@ def run(ctx):
     rng = random.Random(seed * 1000003 + 20)
     n = 3000 if tier == 'quick' else 60000
     cases = list(CORPUS) + [gen_case(rng) for _ in range(n)]
+    rng_m = random.Random(seed * 1000003 + 21)      # own stream: graphs that contain task types declared with mlflow_run=True
+    cases += [gen_case(rng_m, mlflow=True) for _ in range(n // 4)]
     evaluate(cases, out)
     if (out['disagreements'] or not ctx['proof_ok']) and not out['violations_raw']:
         rng2 = random.Random(seed * 1000003 + 7919)
-        more = [gen_case(rng2, big=True) for _ in range(n * 4)]
+        more = [gen_case(rng2, big=True, mlflow=(i % 4 == 3)) for i in range(n * 4)]
         evaluate(more, out)
         cases += more
     return finish(ctx, out, rule, cases, shrink_it=True)
